@@ -1,12 +1,194 @@
 /-
-ArtModel.Ops.Topo — protocol handler(s) for the `topo` operation family.
+ArtModel.Ops.Topo — protocol handler for the `topo` operation family (C14).
 Core Lean only.  `none` = malformed line (the driver prints `bad-op`).
+
+    topo MODE EPS RHO TAU PHI VETOTAB KTAB # call # call …
+
+*Table-driven kernel.*  The model runs the TopoART control flow of
+`ArtModel.Topo` (`topoFit`, `topoPartialFit`, `topoPredict`, and through them
+`topoStep`, `topoSearch`, `prune`) on a kernel that is a *finite table of the
+base module's kernel functions*, recorded from the real run at the call
+boundary of `base_module.category_choice / match_criterion_bin / update /
+new_weight`.  Sample values and weight values are interned by the harness
+(`xid`, `wid` = small integers, equal bytes ⇔ equal id), so a kernel function
+is a finite map on ids and the comparison of weights is *by value*, exact,
+for arbitrary floats:
+
+  MODE     `MT+ | MT- | MT0 | MT1 | MT~`
+  EPS RHO  16-hex-digit IEEE doubles (epsilon, configured `rho`)
+  TAU PHI  naturals
+  VETOTAB  `-` (no reset function) or `|`-joined rows, row `g` = answers of the
+           reset function for the sample with global step index `g`, one
+           character `0/1` per category *position* (`1` = vetoed)
+  KTAB     `;`-joined blocks, block `k` describes sample value `xid = k`:
+             NEW/ENTRY,ENTRY,…          (`-` for no entries)
+           NEW   = `wid` of `new_weight(x)` or `?`
+           ENTRY = wid:T:M:U:L  with
+             T = activation `category_choice(x, w)` (hex, `nan`, or `?` = never computed)
+             M = match value `match_criterion(x, w)` (hex or `?`)
+             U = `wid` of `update(x, w)` at `beta`        (or `?`)
+             L = `wid` of `update(x, w)` at `beta_lower`  (or `?`)
+  call     `fit g:x,g:x,…` | `pfit g:x,…` | `pred x,x,…`   (`-` = zero rows);
+           `g` = global step index (selects the veto row), `x` = `xid`
+
+Output: one segment per call, joined by ` # `.
+  `pred`  →  `pred=c,c,…`  (`x` for a row where `np.argmax` of an empty list raises; `-` = zero rows)
+  `fit` / `pfit` → `STEP ; STEP ; … ; FINAL` where
+     STEP  = `L=label B=best|- S=second|- V=visits P=0|1 STATE`   (state after the sample,
+             i.e. after the pruning round if `P=1`); a visit is `c:th:m:ok`
+             (`th` = threshold in force, hex); `V=unrecorded-match` if the model visited a
+             category whose match value the implementation never computed
+     FINAL = `end STATE`
+     STATE = `W=wids ids=creation-steps cnt=… n=… adj=row|row|… perm=01… labels=… nW=…`
+  A weight of the model is `(creation step g, wid)`; an `update` that was never
+  recorded yields `wid + 1000000` (so it can never compare equal).
 -/
 import ArtModel.Driver
+import ArtModel.Topo
 
 namespace Art.Ops
 
+open Art.Drv
+
+structure TopoEntry where
+  wid : Nat
+  T : Option (Option Int)
+  M : Option Int
+  U : Option Nat
+  L : Option Nat
+
+abbrev TopoTab := List (Option Nat × List TopoEntry)
+
+def parseOptNat (s : String) : Option (Option Nat) :=
+  if s == "?" then some none else s.toNat?.map some
+
+def parseTopoEntry (s : String) : Option TopoEntry := do
+  match s.splitOn ":" with
+  | [w, t, m, u, l] =>
+    let wid ← w.toNat?
+    let T ← if t == "?" then some none else (parseKey t).map some
+    let M ← if m == "?" then some none else ((parseKey m).join).map some
+    some ⟨wid, T, M, ← parseOptNat u, ← parseOptNat l⟩
+  | _ => none
+
+def parseTopoTab (s : String) : Option TopoTab :=
+  (splitList s ";").mapM (fun blk => match blk.splitOn "/" with
+    | [nw, es] => do some (← parseOptNat nw, ← (splitList es).mapM parseTopoEntry)
+    | _ => none)
+
+def TopoTab.find (tab : TopoTab) (xid wid : Nat) : Option TopoEntry :=
+  (tab[xid]?).bind (fun b => b.2.find? (·.wid == wid))
+
+def unrec : Nat := 1000000
+
+/-- sample = (global step, xid); weight = (creation step, wid) -/
+def topoTabKernel (tab : TopoTab) : TopoKernel (Nat × Nat) (Nat × Nat) Int (List Int) :=
+  { choice := fun _ x w => ((tab.find x.2 w.2).bind (·.T)).join
+    matchv := fun x w => match (tab.find x.2 w.2).bind (·.M) with
+      | some m => [m]
+      | none => []
+    update := fun x w => (w.1, ((tab.find x.2 w.2).bind (·.U)).getD (w.2 + unrec))
+    updateLower := fun x w => (w.1, ((tab.find x.2 w.2).bind (·.L)).getD (w.2 + unrec))
+    newW := fun x => (x.1, ((tab[x.2]?).bind (·.1)).getD unrec) }
+
+def showInts (l : List Int) : String := if l.isEmpty then "-" else ",".intercalate (l.map toString)
+
+def showAdj (a : List (List Nat)) : String :=
+  if a.isEmpty then "-" else "|".intercalate (a.map showNats)
+
+def showTopoState (s : TopoState (Nat × Nat)) : String :=
+  s!"W={showNats (s.W.map (·.2))} ids={showNats (s.W.map (·.1))} cnt={showNats s.cnt} n={s.n} " ++
+  s!"adj={showAdj s.adj} perm={if s.perm.isEmpty then "-" else String.join (s.perm.map showBool)} " ++
+  s!"labels={showInts s.labels} nW={s.W.length}"
+
+inductive TopoOpCall where
+  | fit (xs : List (Nat × Nat))
+  | pfit (xs : List (Nat × Nat))
+  | pred (xs : List Nat)
+
+def parseTopoCall (s : String) : Option TopoOpCall := do
+  match s.splitOn " " with
+  | ["fit", xs] => some (.fit (← parseTabXs xs))
+  | ["pfit", xs] => some (.pfit (← parseTabXs xs))
+  | ["pred", xs] => some (.pred (← (splitList xs).mapM String.toNat?))
+  | _ => none
+
+section
+variable (tab : TopoTab) (cfg : SearchCfg (List Int) (List Int)) (th0 : List Int)
+  (vt : Option (List (List Bool))) (tau phi : Nat)
+
+def topoVeto : TopoState (Nat × Nat) → (Nat × Nat) → Nat → Bool := fun _ x c =>
+  match vt with
+  | none => false
+  | some t => ((t[x.1]?).getD []).getD c false
+
+/-- the `L= B= S= V=` part of a step record: what the search of this step did -/
+def showTopoSearch (s : TopoState (Nat × Nat)) (x : Nat × Nat) : String :=
+  let K := topoTabKernel tab
+  let veto := topoVeto vt s x
+  let lab := (topoStep K cfg th0 veto s x).2
+  if s.W.isEmpty then s!"L={lab} B=- S=- V=-"
+  else
+    let r := topoStepSearch K cfg th0 veto s.W x
+    let bad := r.visits.any (fun v => match s.W[v.c]? with
+      | some w => ((tab.find x.2 w.2).bind (·.M)).isNone
+      | none => true)
+    let vs := if bad then "unrecorded-match"
+      else if r.visits.isEmpty then "-" else ",".intercalate (r.visits.map showVisit)
+    s!"L={lab} B={showOptNat r.best} S={showOptNat r.second} V={vs}"
+
+def runTopoCall (s : TopoState (Nat × Nat)) : TopoOpCall → String × TopoState (Nat × Nat)
+  | .fit xs =>
+    let K := topoTabKernel tab
+    let veto := topoVeto vt
+    let tr := topoFitTrace K cfg th0 veto tau phi s xs
+    let pre := topoFitInit s xs.length :: tr
+    let recs := (List.zip xs (List.zip pre tr)).map (fun (x, p, q) =>
+      s!"{showTopoSearch tab cfg th0 vt p x} P={showBool (q.n % tau == 0)} {showTopoState q}")
+    let fin := topoFit K cfg th0 veto tau phi s xs
+    (" ; ".intercalate (recs ++ ["end " ++ showTopoState fin]), fin)
+  | .pfit xs =>
+    let K := topoTabKernel tab
+    let veto := topoVeto vt
+    let tr := topoPFitTrace K cfg th0 veto s xs
+    let pre := topoPFitInit s xs.length :: tr
+    let recs := (List.zip xs (List.zip pre tr)).map (fun (x, p, q) =>
+      s!"{showTopoSearch tab cfg th0 vt p x} P=0 {showTopoState q}")
+    let fin := topoPartialFit K cfg th0 veto s xs
+    (" ; ".intercalate (recs ++ ["end " ++ showTopoState fin]), fin)
+  | .pred xs =>
+    let ys := topoPredict (topoTabKernel tab) s.W (xs.map (fun x => (0, x)))
+    ("pred=" ++ (if ys.isEmpty then "-" else ",".intercalate (ys.map (fun
+      | some c => toString c
+      | none => "x"))), s)
+
+def runTopoCalls : TopoState (Nat × Nat) → List TopoOpCall → List String
+  | _, [] => []
+  | s, c :: cs =>
+    let (out, s') := runTopoCall tab cfg th0 vt tau phi s c
+    out :: runTopoCalls s' cs
+
+end
+
 /-- handler for lines starting with `topo `; `a` = the remaining space-separated fields -/
-def topo (_a : List String) : Option String := none
+def topo (a : List String) : Option String := do
+  match (" ".intercalate a).splitOn " # " with
+  | [] => none
+  | hd :: callStrs =>
+    match hd.splitOn " " with
+    | [mode, eps, rho, tau, phi, vt, ktab] =>
+      let mode ← parseMT mode
+      let eps ← parseFloatBits eps
+      let rho ← (parseKey rho).join
+      let tau ← tau.toNat?
+      let phi ← phi.toNat?
+      let vt ← if vt == "-" then some none else (parseVetoTab vt).map some
+      let tab ← parseTopoTab ktab
+      let calls ← callStrs.mapM parseTopoCall
+      if tau == 0 then none
+      else
+        some (" # ".intercalate
+          (runTopoCalls tab (vecCfg mode [false] eps) [rho] vt tau phi {} calls))
+    | _ => none
 
 end Art.Ops
